@@ -9,12 +9,13 @@ D=$(readlink -f "$1"); S=$2; P=$3; T=${4:-quick}; shift; shift; shift; shift 2>/
 PROPS="$P $*"
 W=/var/tmp/vw$S
 if [ ! -d $W/repo ]; then mkdir -p $W; git -C /repo worktree add --detach $W/repo HEAD >/dev/null 2>&1 || { echo "cannot create worktree"; exit 3; }; fi
-git -C $W/repo checkout -q --detach $(git -C /repo rev-parse HEAD) && git -C $W/repo checkout -q -- . && git -C $W/repo clean -fdq
-git -C $W/repo apply "$D/patch.diff" 2>/dev/null || git -C $W/repo apply --3way "$D/patch.diff" >/dev/null 2>&1 || { echo "patch does not apply"; exit 3; }   # --3way: /repo has moved on (fix: commits) since some changes were made
+git -C $W/repo reset -q --hard >/dev/null 2>&1; git -C $W/repo checkout -q --detach $(git -C /repo rev-parse HEAD) && git -C $W/repo reset -q --hard && git -C $W/repo clean -fdq
+git -C $W/repo apply "$D/patch.diff" 2>/dev/null || git -C $W/repo apply --3way "$D/patch.diff" >/dev/null 2>&1 || { git -C $W/repo reset -q --hard; echo "patch does not apply"; exit 3; }
+if [ -n "$(git -C $W/repo diff --name-only --diff-filter=U)" ]; then git -C $W/repo reset -q --hard; echo "patch does not apply (conflict with a later fix: commit)"; exit 3; fi   # --3way: /repo has moved on (fix: commits) since some changes were made
 for p in $PROPS; do
   ( cd /verif && VERIF_REPO=$W/repo VERIF_BUILD=$W/build VERIF_OUT_DIR=$D/out VERIF_MAKE_J=${VERIF_MAKE_J:-8} VERIF_WORKERS=${VERIF_WORKERS:-8} ./run $p --tier $T > "$D/check.$p.log" 2>&1 ); rc=$?
   v=$(grep -m1 '^VIOLATION' "$D/check.$p.log" || echo -)
   n=$(grep -c '^VIOLATION' "$D/check.$p.log")
   echo "$p exit=$rc violations=$n $v"
 done
-git -C $W/repo checkout -q -- .
+git -C $W/repo reset -q --hard
